@@ -24,7 +24,7 @@ func init() {
 				"contain a slash. R3: the ReverseProxy is built with Rewrite (which strips Forwarded / X-Forwarded-*) and without " +
 				"Director, and Rewrite only calls SetURL(target) and sets Host and User-Agent.",
 			NotCovered: "string predicates other than segment equality; behaviour of net/http and httputil themselves (hop-by-hop header handling).",
-			Rules: map[string]string{"C19-R6": "the proxy never lets a client switch protocols: the Upgrade header of the inbound request is deleted before the request is handed to httputil.ReverseProxy (which would relay a 101 of the backend and then copy the connection's bytes both ways unseen, past the path gate and the header rewriting)", "C19-RC": "class rules (error chains, shadowed results, character classes, crossed arguments, pool constructors, array pools, loop completeness, loop-carried buffers, replacing setters, complete clones, Grow arithmetic, pooled-buffer escape, sorted searches, fresh decode targets, per-iteration objects, whole-message copies, codec guards) over the packages this property rests on", "C19-R5": "websvc.New: the linked-IP listeners' handler is the proxy gate itself, built for the configured target (nothing is routed around it)",
+			Rules: map[string]string{"C19-R7": "nothing in the web service rewrites the peer address of a request (no store into http.Request.RemoteAddr): the address the proxy reports to the backend is the connecting peer's; R8: the reverse proxy talks to the backend through a plain *http.Transport, which relays redirects to the client instead of following them (an http.Client would contact other paths and hosts by itself)", "C19-R6": "the proxy never lets a client switch protocols: the Upgrade header of the inbound request is deleted before the request is handed to httputil.ReverseProxy (which would relay a 101 of the backend and then copy the connection's bytes both ways unseen, past the path gate and the header rewriting)", "C19-RC": "class rules (error chains, shadowed results, character classes, crossed arguments, pool constructors, array pools, loop completeness, loop-carried buffers, replacing setters, complete clones, Grow arithmetic, pooled-buffer escape, sorted searches, fresh decode targets, per-iteration objects, whole-message copies, codec guards) over the packages this property rests on", "C19-R5": "websvc.New: the linked-IP listeners' handler is the proxy gate itself, built for the configured target (nothing is routed around it)",
 				"C19-R1": "ServeHTTP gate and header effects", "C19-R2": "shouldProxy decision table incl. dot segments and split limit",
 				"C19-R3": "ReverseProxy literal: Rewrite, not Director; Rewrite's effects",
 				"C19-R4": "the client-IP header is (re-)set on the outgoing request inside Rewrite, i.e. after httputil has removed the hop-by-hop headers that the client's Connection header names",
@@ -33,6 +33,10 @@ func init() {
 }
 
 func runC19(c *an.Ctx) {
+	// ---- R7: the peer address is never rewritten; R8: the proxy's transport follows no redirects
+	c19PeerAddrUntouched(c, "C19-R7")
+	c.Floor("C19-R8", 1)
+	c19PlainTransport(c, "C19-R8")
 	// ---- R6: no protocol switch through the proxy
 	c.Floor("C19-R6", 1)
 	c19NoUpgrade(c, "C19-R6")
@@ -439,4 +443,72 @@ func c19NoUpgrade(c *an.Ctx, rule string) {
 	}
 	c.Check(ok, rule, key, proxy.Pos(), "Header.Del(\"Upgrade\") dominates the proxy call",
 		"the inbound Upgrade header is still there when the request reaches httputil.ReverseProxy at "+c.Pos(proxy.Pos())+": with a backend (or a hop before it) that answers 101, the client gets a raw connection to the backend, on which any method, any path and a forged X-Connecting-IP pass")
+}
+
+// c19PeerAddrUntouched: linkedIPProxy.ServeHTTP reports r.RemoteAddr to the
+// backend as the client's address.  No production code of websvc (or of the
+// DoH server) stores into http.Request.RemoteAddr; a "real IP" wrapper that
+// copies a header there lets the client choose the reported address.
+func c19PeerAddrUntouched(c *an.Ctx, rule string) {
+	n := 0
+	for _, fn := range c.AllFns {
+		k := an.FnKey(fn)
+		if fn.Blocks == nil || c.IsTestFile(fn.Pos()) || !(strings.HasPrefix(k, "websvc.") || strings.HasPrefix(k, "dnsserver.")) {
+			continue
+		}
+		n++
+		an.Instrs(fn, func(in ssa.Instruction) {
+			st, ok := in.(*ssa.Store)
+			if !ok {
+				return
+			}
+			if t, f, _, ok := an.FieldOf(st.Addr); ok && t == "net/http.Request" && f == "RemoteAddr" {
+				c.Analysed(k)
+				c.Bad(rule, k+" leaves the peer address of the request alone", st.Pos(),
+					"http.Request.RemoteAddr is overwritten at %s: the address that the linked-IP proxy reports to the backend as X-Connecting-IP is no longer the connecting peer's", c.Pos(st.Pos()))
+			}
+		})
+	}
+	if n == 0 {
+		c.Und(rule, "stores into http.Request.RemoteAddr", token.NoPos, "no function of websvc or dnsserver found")
+		return
+	}
+	c.Ok(rule, "stores into http.Request.RemoteAddr", token.NoPos, "%d functions of websvc and dnsserver scanned", n)
+}
+
+// c19PlainTransport: httputil.ReverseProxy hands the backend's response, a 3xx
+// included, back to the client when its Transport is an *http.Transport.  A
+// RoundTripper built on http.Client follows redirects itself: the proxy then
+// contacts paths outside the API, and other hosts, on its own and with the
+// client's X-Connecting-IP.  The value stored into ReverseProxy.Transport in
+// websvc is an *http.Transport.
+func c19PlainTransport(c *an.Ctx, rule string) {
+	n := 0
+	for _, fn := range c.AllFns {
+		k := an.FnKey(fn)
+		if fn.Blocks == nil || c.IsTestFile(fn.Pos()) || !strings.HasPrefix(k, "websvc.") {
+			continue
+		}
+		an.Instrs(fn, func(in ssa.Instruction) {
+			st, ok := in.(*ssa.Store)
+			if !ok {
+				return
+			}
+			t, f, _, ok := an.FieldOf(st.Addr)
+			if !ok || t != "net/http/httputil.ReverseProxy" || f != "Transport" {
+				return
+			}
+			n++
+			c.Analysed(k)
+			typ := st.Val.Type().String()
+			if mi, isMI := st.Val.(*ssa.MakeInterface); isMI {
+				typ = mi.X.Type().String()
+			}
+			c.Check(typ == "*net/http.Transport", rule, k+": the reverse proxy uses a plain http.Transport", st.Pos(), "Transport is "+typ,
+				"the reverse proxy's Transport is "+typ+", not *net/http.Transport: a round tripper that follows redirects (http.Client) makes the proxy contact whatever path or host the backend's Location names")
+		})
+	}
+	if n == 0 {
+		c.Und(rule, "ReverseProxy.Transport", token.NoPos, "no store into httputil.ReverseProxy.Transport found in websvc")
+	}
 }
